@@ -60,7 +60,8 @@ ALPHA = ["a", "b", "Z", "0", " ", ",", ";", "\t", "|", '"', '"', "\r", "\n", "\r
 ADV_CELLS = ["", " ", '"', '""', ",", "a,b", 'say "hi"', "line\nbreak", "cr\rhere", "crlf\r\nx", "\n", "\r", "\r\n",
              " lead", "trail ", "a\x00b", "tab\tsep", "semi;colon", "pipe|", "=1+1", '",', ',"', '"\n"', "x" * 300,
              "caf\udce9", "\udc80", "é,\"日\"\r\n\U0001f600", "'single'", "\\n", "#c", "\x0b\x0c", "\x85", " "]
-FIELD_POOL = ["a", "b", "c", "value", "ts", "name", "data", "n", "x1", "s"]
+# ("class", "from", "in": Python keywords - the library generates another constructor for such record types)
+FIELD_POOL = ["a", "b", "c", "value", "ts", "name", "data", "n", "x1", "s", "class", "from", "in"]
 RESERVED = ["_source", "_classification", "_generated", "_version"]
 
 
@@ -250,6 +251,12 @@ def gen_cases(rng, tier):
         else:
             opts["lineterminator"] = r.choice(["\n\n", "\n\r", "\\t", ";", "\\n\\n", "xy"])
         cases.append({"kind": "recs", "recs": recs, "opts": opts})
+    # consecutive records of two types of one name whose identifiers (name + 32-bit hash) coincide: still a type change
+    G0 = {"_generated": ["dt", [2020, 1, 2, 3, 4, 5, 6], "utc", 0]}
+    c1 = ["t/col", [["wstring", "ra"]]]
+    c2 = ["t/col", [["string", "raw"]]]
+    for seq in ((c1, c2, c1), (c2, c1), (c1, c1, c2, c2)):
+        cases.append({"kind": "recs", "recs": [["rec", ds, [V.S("v%d" % i)], G0] for i, ds in enumerate(seq)], "opts": {}})
     r = rng.fork("line")
     for _ in range(120 * n):
         recs = _gen_recs(r)
@@ -410,11 +417,13 @@ def run_real(case):
             # what the property says the file holds: per run a header of the selected names, then str(value) cells
             try:
                 expected, prev = [], None
-                for rec in recs:
+                for rec, rspec in zip(recs, case["recs"]):
                     sel = _select(case["opts"], list(rec.__slots__))
-                    if prev is None or prev != rec._desc:
+                    # a run ends where the record TYPE changes - decided on the declared (name, fields) of the case, not
+                    # with the library's descriptor comparison
+                    if prev is None or prev != rspec[1]:
                         expected.append([V.enc_str(n) for n in sel])
-                        prev = rec._desc
+                        prev = rspec[1]
                     expected.append([V.enc_str(_cell(getattr(rec, n))) for n in sel])
                 obs["expected"] = expected
             except Exception as e:
